@@ -128,7 +128,7 @@ var c12Epilogues = []string{``, `</head><body>text</body></html>`, "\n<p>caf\xe9
 
 func c12Run(c *core.Ctx) {
 	cs := &core.Case{Kind: "c12", Strs: make([]string, 4)}
-	tokAlpha := []byte("aZ9-_.:+")
+	tokAlpha := []byte("aZ9-_.:+^~!*")
 	var labels []string
 	labels = append(labels, c12RealLabels...)
 	nreal := len(labels)
